@@ -76,3 +76,27 @@ Example C04_nonvacuous :
   = Ok (ORecord (mkBuf 8 28 [mkSlot 0 2 24 true (Owned 101); mkSlot 24 1 4 false (Owned 100)]), []) /\
   op_new ex_ds ex_ti rt_unfixed 8 28 0 [0; 1]%nat (fun i => (100 + i)%nat) = Fault Misaligned.
 Proof. split; vm_compute; reflexivity. Qed.
+
+(* ---- end to end: from a request history to the values read back.
+   For every history of valid requests with power-of-two alignments, every variant v of the definition
+   it builds, real type information that agrees with the recorded one (what passing the module's own
+   gate forces: C11) and any capacity covering the published max_size, `layout_ok` holds (Proofs/Link.v:
+   the conclusions of C01, C02, C12 for that variant), so a record built by `new` gives every value back. *)
+From Truc.Proofs Require Import BuilderInv LayoutThms Link.
+Theorem C04_end_to_end : forall h TI rt cap m, hist_ok h -> pow2_hist h -> rt_ok rt = true ->
+  let b := run h in let ds := b_ds b in
+  (forall v i, In v (b_vs b) -> In i v ->
+     ti_size (TI (d_ty (getd ds i))) = d_size (getd ds i) /\ ti_align (TI (d_ty (getd ds i))) = d_align (getd ds i)) ->
+  max_size (ds, b_vs b) = Some m -> (m <= cap)%N ->
+  forall v, In v (b_vs b) -> NoDup (map (fun i => (Gen.of ds i, Gen.ty ds i)) v) ->
+  forall vid vals, exists r,
+    op_new ds TI rt (max_type_align (ds, b_vs b)) cap vid v vals = Ok (ORecord r, []) /\
+    forall i mode, In i v -> op_get ds TI rt r i mode = Ok (Some (vals i)).
+Proof.
+  intros h TI rt cap m Hh Hp RT b ds HTI Hm Hcap v Hv Hk vid vals.
+  assert (L : layout_ok ds TI (max_type_align (ds, b_vs b)) cap v).
+  { apply (layout_ok_of_run h Hh Hp TI HTI cap); eauto. }
+  destruct (C04_new ds TI rt _ cap RT v L vid vals) as (r & E & H).
+  exists r. split; [exact E|]. intros i mode Hi. exact (C04_get ds TI rt _ cap RT v L vals r i mode H Hi).
+Qed.
+Print Assumptions C04_end_to_end.
